@@ -11,3 +11,5 @@ require (
 	golang.org/x/mod v0.22.0 // indirect
 	golang.org/x/sync v0.10.0 // indirect
 )
+
+require github.com/robfig/cron/v3 v3.0.1
